@@ -121,17 +121,17 @@ pub fn rebuild_archive<P: AsRef<Path>>(
 
     // Phase 2: Extract files and metadata
     log::debug!("Phase 2: Extracting files and metadata");
-    let extracted_files =
+    let (extracted_files, listed_count) =
         extract_files_with_metadata(&mut source, &metadata, &options, &progress_callback)?;
 
     let extracted_count = extracted_files.len();
-    log::info!("Extracted {extracted_count} files from source archive");
+    log::info!("Extracted {extracted_count} of {listed_count} files from source archive");
 
     if options.list_only {
         return Ok(RebuildSummary {
-            source_files: metadata.file_count,
+            source_files: listed_count,
             extracted_files: extracted_count,
-            skipped_files: metadata.file_count - extracted_count,
+            skipped_files: listed_count - extracted_count,
             target_format: determine_target_format(&metadata, &options),
             verified: false,
         });
@@ -160,9 +160,9 @@ pub fn rebuild_archive<P: AsRef<Path>>(
     };
 
     Ok(RebuildSummary {
-        source_files: metadata.file_count,
+        source_files: listed_count,
         extracted_files: extracted_count,
-        skipped_files: metadata.file_count - extracted_count,
+        skipped_files: listed_count - extracted_count,
         target_format,
         verified,
     })
@@ -205,21 +205,22 @@ fn analyze_archive(archive: &mut Archive) -> Result<ArchiveMetadata> {
 }
 
 /// Extract files with their metadata from the source archive
+///
+/// Returns the extracted files and the number of files the source lists.
 fn extract_files_with_metadata(
     archive: &mut Archive,
     metadata: &ArchiveMetadata,
     options: &RebuildOptions,
     progress_callback: &Option<ProgressCallback>,
-) -> Result<Vec<(Vec<u8>, FileMetadata)>> {
-    // Get file list, preferring the most complete method
-    let files = if metadata.has_het_bet {
-        archive
+) -> Result<(Vec<(Vec<u8>, FileMetadata)>, usize)> {
+    // Get file list. Files can only be read (and re-added) by name, so the named
+    // listing comes first; table enumeration yields placeholder names only.
+    let files = match archive.list() {
+        Ok(files) if !files.is_empty() => files,
+        _ if metadata.has_het_bet => archive
             .list_all_with_hashes()
-            .unwrap_or_else(|_| archive.list().unwrap_or_default())
-    } else {
-        archive
-            .list()
-            .unwrap_or_else(|_| archive.list_all().unwrap_or_default())
+            .unwrap_or_else(|_| archive.list_all().unwrap_or_default()),
+        _ => archive.list_all().unwrap_or_default(),
     };
 
     let mut extracted_files = Vec::new();
@@ -242,14 +243,14 @@ fn extract_files_with_metadata(
             continue;
         }
 
-        // Extract file data
-        let data = match archive.read_file(&file.name) {
-            Ok(data) => data,
-            Err(e) => {
-                log::warn!("Failed to read file {}: {}", file.name, e);
-                continue;
-            }
-        };
+        // Extract file data. A file that cannot be read must fail the rebuild:
+        // skipping it would silently drop it from the rebuilt archive.
+        let data = archive.read_file(&file.name).map_err(|e| {
+            Error::invalid_format(format!(
+                "Cannot rebuild: failed to read file {}: {e}",
+                file.name
+            ))
+        })?;
 
         // Extract metadata
         let file_meta = FileMetadata {
@@ -272,7 +273,7 @@ fn extract_files_with_metadata(
         extracted_files.sort_by_key(|(_, meta)| meta.original_index);
     }
 
-    Ok(extracted_files)
+    Ok((extracted_files, total_files))
 }
 
 /// Rebuild the archive with extracted files
